@@ -494,6 +494,47 @@ func c11execute(c *core.Check) {
 	})
 	c.Decide(guarded && ctxFromTimeout && cmdUsesCtx, "plugin-timeout", key+"/timeout", where, "ctx = WithTimeout(ctx, MaxExecutionTime) when the limit is positive; exec.CommandContext(ctx, …)",
 		"the plugin process is not started with the context carrying --plugin-time-limit: a hanging plugin is never killed")
+	// exec.CommandContext kills the process (os.Process.Kill) when the context ends — unless Cmd.Cancel is replaced. A
+	// replacement has to kill as well, or a WaitDelay must bound the wait; a polite signal alone leaves a plugin that
+	// ignores it running for ever while thriftgo blocks in Wait.
+	cancelOK, cancelWhere, cancelWhat := true, where, "Cmd.Cancel is not replaced: the context's end kills the plugin process"
+	waitDelay := false
+	ast.Inspect(fd.Body, func(n ast.Node) bool {
+		as, ok := n.(*ast.AssignStmt)
+		if !ok || len(as.Lhs) != 1 || len(as.Rhs) != 1 {
+			return true
+		}
+		sel, ok := as.Lhs[0].(*ast.SelectorExpr)
+		if !ok {
+			return true
+		}
+		tv, ok := info.Types[sel.X]
+		if !ok || !strings.HasSuffix(tv.Type.String(), "os/exec.Cmd") {
+			return true
+		}
+		switch sel.Sel.Name {
+		case "WaitDelay":
+			waitDelay = true
+		case "Cancel":
+			kills := false
+			for _, call := range rules.Calls(as.Rhs[0], true) {
+				if fn := rules.Callee(info, call); fn != nil && fn.Name() == "Kill" {
+					kills = true
+				}
+			}
+			if !kills {
+				cancelOK, cancelWhere = false, c.Prog.Rel(as.Pos())
+			} else {
+				cancelWhat = "the replaced Cmd.Cancel kills the process"
+			}
+		}
+		return true
+	})
+	if !cancelOK && waitDelay {
+		cancelOK, cancelWhat = true, "Cmd.Cancel is replaced by a signal and Cmd.WaitDelay bounds the wait (the process is killed when it expires)"
+	}
+	c.Decide(cancelOK, "plugin-killed-at-limit", key+"/cancel", cancelWhere, cancelWhat,
+		"Cmd.Cancel is replaced by a function that does not kill the process and no WaitDelay is set: a plugin that handles or ignores the signal keeps running past --plugin-time-limit and thriftgo waits for it indefinitely")
 }
 
 func argText(call *ast.CallExpr) string {
